@@ -153,6 +153,11 @@ namespace TrRouting
           
           int travelTime = capnpT.getTransferableNodesTravelTimes()[j];
           int distance = capnpT.getTransferableNodesDistances()[j];
+          if (travelTime < 0) {
+            // walking never takes negative time: a damaged file, the transfer is ignored like one to an unknown node
+            spdlog::error("Negative travel time ({}) to transferable node {} in file {}, ignoring the transfer", travelTime, nodeUuidStr, nodeCacheFileNamePath);
+            continue;
+          }
           transferableNodes.push_back(NodeTimeDistance(ts.at(nodeUuid),
                                                        travelTime,
                                                        distance));
